@@ -261,6 +261,9 @@ pub fn source_for(case: &Json) -> String {
                 s.push_str(&format!("  aq{k} AT %Q{}{} : ARRAY[{lo}..{}] OF {};\n", a["size"].as_str().unwrap_or("W"), a["byte"].as_u64().unwrap_or(0), lo + a["len"].as_i64().unwrap_or(1) - 1, a["ty"].as_str().unwrap_or("INT")));
             }
         }
+        if pi == 2 && case["enc"].as_bool().unwrap_or(false) {
+            s.push_str(&format!("  ovf AT %QW{} : INT;\n", OUT_LEN - 4));
+        }
         s.push_str("END_VAR\n");
         for (i, v) in inputs.iter().enumerate() {
             let name = if v.global { format!("gin{i}") } else { format!("in{i}") };
@@ -302,6 +305,11 @@ pub fn source_for(case: &Json) -> String {
                     }
                 }
             }
+        }
+        if pi == 2 && case["enc"].as_bool().unwrap_or(false) {
+            // g_div = 20 drives an INT output past its range (the interpreter leaves the DINT sum in the variable):
+            // the second such cycle faults while the outputs are being encoded
+            s.push_str("IF g_div = 20 THEN ovf := ovf + 20000; END_IF;\n");
         }
         // fault site: g_div = program index + 1 selects which program divides by zero
         s.push_str(&format!("IF g_div = {} THEN t := 1 / (g_div - {}); END_IF;\n", pi as i64 + 10, pi as i64 + 10));
@@ -465,6 +473,7 @@ impl Check for C07Check {
         let mut extra = rng.fork("extra");
         let event = extra.chance(1, 2) && next_byte <= OUT_LEN - 2;
         let same_names = extra.chance(1, 4);
+        let enc = extra.chance(1, 3) && next_byte <= OUT_LEN - 4;
         let n_ops = match tier {
             Tier::Quick => o.usize(3, 25),
             Tier::Thorough => o.usize(5, 60),
@@ -487,13 +496,30 @@ impl Check for C07Check {
                 _ => ops.push(json!({"k": "cycle"})),
             }
         }
-        match o.below(8) {
+        let mut after = rng.fork("after");
+        let final_fault = o.below(8);
+        if enc && (final_fault >= 3 || after.bool()) && after.bool() {
+            // two cycles with g_div = 20: the first is an ordinary cycle, the second cannot encode its outputs
+            ops.push(json!({"k": "cycle", "set_div": 20}));
+            ops.push(json!({"k": "cycle", "fault": "enc"}));
+        } else {
+        match final_fault {
             0 => ops.push(json!({"k": "cycle", "fault": "div", "site": o.below(3)})),
             1 => ops.push(json!({"k": "cycle", "fault": "read_err", "driver": o.below(n_drivers as u64)})),
             2 => ops.push(json!({"k": "cycle", "fault": "write_err", "driver": o.below(n_drivers as u64)})),
             _ => {}
         }
+        }
+        // what happens after the faulted cycle: restart, then cycles that must look like those of a fresh runtime
+        let after_restart = if after.chance(2, 3) {
+            let cycles: Vec<Json> = (0..after.usize(1, 3)).map(|_| Json::from((0..IN_LEN).map(|_| *after.pick(&[0u64, 0xff, 0x80, 0x7f, 0x01, 0x40, 0xc0])).collect::<Vec<u64>>())).collect();
+            json!({"mode": if after.bool() { "warm" } else { "cold" }, "cycles": cycles})
+        } else {
+            Json::Null
+        };
         json!({
+            "enc": enc,
+            "after_restart": after_restart,
             "n_drivers": n_drivers,
             "same_names": same_names,
             "event": event,
@@ -509,7 +535,7 @@ impl Check for C07Check {
     }
 
     fn run(&self, case: &Json, stats: &mut Stats) -> Result<(), Violation> {
-        for p in ["probe.overlapping_inputs", "probe.bit_adjacent_outputs", "probe.forced_input_seen", "probe.forced_output_published", "probe.io_write_latched", "probe.faulted_cycle_checked", "probe.input_changed_between_reads", "probe.bit_cleared_above_set_lower_bits", "probe.array_with_nonzero_lower_bound_bound_to_io", "probe.drivers_share_a_name", "probe.event_task_fired_on_latched_input", "probe.event_trigger_pulse_of_one_cycle"] {
+        for p in ["probe.overlapping_inputs", "probe.bit_adjacent_outputs", "probe.forced_input_seen", "probe.forced_output_published", "probe.io_write_latched", "probe.faulted_cycle_checked", "probe.input_changed_between_reads", "probe.bit_cleared_above_set_lower_bits", "probe.array_with_nonzero_lower_bound_bound_to_io", "probe.drivers_share_a_name", "probe.event_task_fired_on_latched_input", "probe.event_trigger_pulse_of_one_cycle", "probe.cycle_after_fault_and_restart_checked"] {
             stats.add(p, 0);
         }
         let src = source_for(case);
@@ -530,6 +556,7 @@ impl Check for C07Check {
         let drivers = world::attach_drivers_named(&mut rt, n_drivers, same_names);
         let event = case["event"].as_bool().unwrap_or(false);
         let (mut prev_trig, mut ecnt) = (false, 0u64);
+        let mut ovf_val = 0u64;
         let debug = rt.enable_debug();
         {
             let mut d = drivers.lock().unwrap();
@@ -672,6 +699,10 @@ impl Check for C07Check {
                         let site = op["site"].as_u64().unwrap_or(0).min(2) as i32;
                         rt.storage_mut().set_global("g_div", Value::DInt(site + 10));
                     }
+                    if let Some(v) = op["set_div"].as_i64() {
+                        rt.storage_mut().set_global("g_div", Value::DInt(v as i32));
+                    }
+                    let enc_active = case["enc"].as_bool().unwrap_or(false) && matches!(rt.storage().get_global("g_div"), Some(Value::DInt(20)));
                     let res = guard("execute_cycle", || rt.execute_cycle())?;
                     let log: Vec<DriverEvent> = {
                         let mut d = drivers.lock().unwrap();
@@ -736,6 +767,7 @@ impl Check for C07Check {
                         Err(e) => {
                             let expected = match fault {
                                 Some("div") => "DivisionByZero",
+                                Some("enc") => "Overflow",
                                 Some(_) => "IoDriver",
                                 None => "",
                             };
@@ -746,6 +778,8 @@ impl Check for C07Check {
                     }
                     // ---- latched values
                     let mut in_model = delivered.clone().unwrap_or_else(|| rt.io().inputs().to_vec());
+                    // a debugger I/O write still queued when the read failed stays queued (and is applied later)
+                    let write_left_queued = fault == Some("read_err") && !pending_io.is_empty();
                     if fault == Some("read_err") {
                         // aborted before latching; nothing else to compare on the input side
                         pending_io.clear();
@@ -862,6 +896,12 @@ impl Check for C07Check {
                             prev_trig = trig;
                             encode(&mut expected_out, "W", OUT_LEN - 2, 0, ecnt);
                         }
+                        if case["enc"].as_bool().unwrap_or(false) {
+                            if enc_active {
+                                ovf_val += 20000;
+                            }
+                            encode(&mut expected_out, "W", OUT_LEN - 4, 0, ovf_val & 0xffff);
+                        }
                         // ---- published bytes
                         let image = rt.io().outputs().to_vec();
                         if image != expected_out {
@@ -894,7 +934,9 @@ impl Check for C07Check {
                     if res.is_err() {
                         // ---- faulted cycle: no program-computed outputs reach any driver
                         stats.inc(&format!("fault.{}", fault.unwrap_or("none")));
-                        if fault != Some("write_err") {
+                        // (an encoding fault has published part of the image by construction of write_outputs; its
+                        // root is the open C03 finding, so that cycle's bytes are not judged here)
+                        if fault != Some("write_err") && fault != Some("enc") {
                             for ev in &log {
                                 if let DriverEvent::Write { driver, image } = ev {
                                     for (ii, v) in inputs.iter().enumerate() {
@@ -917,6 +959,69 @@ impl Check for C07Check {
                             }
                         }
                         stats.inc("probe.faulted_cycle_checked");
+                        // ---- after the fault: restart, then every cycle must look like that of a fresh runtime
+                        let forces_active = forced_in.iter().chain(forced_out.iter()).any(Option::is_some);
+                        if !case["after_restart"].is_null() && !forces_active && !write_left_queued {
+                            let mode = if case["after_restart"]["mode"] == "warm" { trust_runtime::RestartMode::Warm } else { trust_runtime::RestartMode::Cold };
+                            if let Err(e) = guard("restart", || rt.restart(mode))? {
+                                return Err(Violation::new("restart/error", format!("{e:?}")));
+                            }
+                            let mut twin = match guard("compile", || world::compile(&src))? {
+                                Ok(t) => t,
+                                Err(e) => return Err(Violation::new("harness/compile-rejected", e)),
+                            };
+                            twin.io_mut().resize(IN_LEN, OUT_LEN, MEM_LEN);
+                            let (img, mem) = (rt.io().outputs().to_vec(), rt.io().memory().to_vec());
+                            twin.io_mut().outputs_mut().copy_from_slice(&img);
+                            twin.io_mut().memory_mut().copy_from_slice(&mem);
+                            let twin_drivers = world::attach_drivers_named(&mut twin, n_drivers, same_names);
+                            twin.set_fault_policy(if case["policy"] == "safe_halt" { FaultPolicy::SafeHalt } else { FaultPolicy::Halt });
+                            let mut t_now = 0i64;
+                            for (ci, bytes) in case["after_restart"]["cycles"].as_array().cloned().unwrap_or_default().iter().enumerate() {
+                                let b: Vec<u8> = bytes.as_array().into_iter().flatten().map(|x| x.as_u64().unwrap_or(0) as u8).collect();
+                                t_now += 10_000_000;
+                                let mut results = vec![];
+                                for (side, drv) in [(&mut rt, &drivers), (&mut twin, &twin_drivers)] {
+                                    {
+                                        let mut d = drv.lock().unwrap();
+                                        d.churn = false;
+                                        d.log.clear();
+                                        for i in 0..n_drivers {
+                                            d.next_input[i] = None;
+                                            d.fail_read[i] = false;
+                                            d.fail_write_n[i] = 0;
+                                        }
+                                        d.next_input[0] = Some((0, b.clone()));
+                                    }
+                                    side.set_current_time(Duration::from_nanos(t_now));
+                                    let r = guard("execute_cycle after restart", || side.execute_cycle())?;
+                                    results.push(format!("{:?}", r.err().map(|e| variant_name(&e))));
+                                }
+                                let writes = |d: &std::sync::Arc<std::sync::Mutex<world::DriverShared>>| -> Vec<(usize, Vec<u8>)> {
+                                    d.lock().unwrap().log.iter().filter_map(|e| if let DriverEvent::Write { driver, image } = e.clone() { Some((driver, image)) } else { None }).collect()
+                                };
+                                let what = if results[0] != results[1] {
+                                    Some(format!("cycle result {} vs fresh {}", results[0], results[1]))
+                                } else if rt.io().outputs() != twin.io().outputs() {
+                                    Some(format!("output image {:?} vs fresh {:?}", rt.io().outputs(), twin.io().outputs()))
+                                } else if rt.io().memory() != twin.io().memory() {
+                                    Some("memory image differs".to_string())
+                                } else if writes(&drivers) != writes(&twin_drivers) {
+                                    Some(format!("bytes given to the drivers {:?} vs fresh {:?}", writes(&drivers), writes(&twin_drivers)))
+                                } else if world::dump_storage(&rt) != world::dump_storage(&twin) {
+                                    Some("variables differ".to_string())
+                                } else {
+                                    None
+                                };
+                                if let Some(w) = what {
+                                    return Err(Violation::new(
+                                        format!("restart/io-differs-from-fresh-runtime/{}", fault.unwrap_or("none")),
+                                        format!("cycle {ci} after the {} fault and a {mode:?} restart: {w}\n{src}", fault.unwrap_or("?")),
+                                    ));
+                                }
+                                stats.inc("probe.cycle_after_fault_and_restart_checked");
+                            }
+                        }
                         return Ok(());
                     }
                 }
